@@ -1,6 +1,6 @@
 (* Line-oriented entry point of the executable model: run "cmd sexp" = answer line. *)
 From Coq Require Import String Ascii List Bool Arith.
-From Wrap Require Import Base.Str Base.ListX Syntax.Ast Syntax.Sexp Syntax.Codec Syntax.Print Inst.Model Inst.Proj Pybind.Items Pybind.Gen Pybind.Render Matlab.Ids Matlab.Arity.
+From Wrap Require Import Base.Str Base.ListX Syntax.Ast Syntax.Sexp Syntax.Codec Syntax.Print Inst.Model Inst.Proj Pybind.Items Pybind.Gen Pybind.Render Matlab.Ids Matlab.Arity Matlab.Files.
 Import ListNotations.
 Open Scope string_scope.
 
@@ -150,6 +150,30 @@ Definition run_mltexts (x : sexp) : string :=
   | _ => "badshape"
   end.
 
+(* mlfiles (qbits cfg items) -> (files) (skeletons) (preamble classes) *)
+Definition e_fkind (k : fkind) : sexp :=
+  Atom (match k with FClassdef => "classdef" | FEnum => "enum" | FFunction => "function" | FMex => "mex" end).
+Definition run_mlfiles (x : sexp) : string :=
+  match x with
+  | SList [Atom qs; cf; SList its] =>
+    match d_mcfg cf, sequence (map d_item its) with
+    | Some c, Some l =>
+      let q := {| q_enum_path := bit qs 0 |} in
+      "ok " ++ print (SList [
+        SList (map (fun p => SList [Atom (fst p); e_fkind (snd p)]) (module_files q c l));
+        SList (map (fun p => let sk := snd p in
+                             SList [Atom (fst p); Atom (sk_name sk); Atom (sk_base sk); Atom (sk_ptr sk);
+                                    e_list e_str (sk_props sk); e_list e_str (sk_methods sk); e_list e_str (sk_statics sk)])
+                   (flat_map (skeletons c []) l));
+        SList (map (fun k => SList [Atom (collector_name k); Atom (collector_cpp k); e_bool (ic_virtual k);
+                                    Atom (iclass_cpp k); e_bool (match ic_insts k with [] => false | _ => true end);
+                                    Atom (ic_name k)])
+                   (preamble_classes c l))])
+    | _, _ => "baddecode"
+    end
+  | _ => "badshape"
+  end.
+
 Definition run (line : string) : string :=
   let '(cmd, rest) := split_cmd line EmptyString in
   match read rest with
@@ -162,6 +186,7 @@ Definition run (line : string) : string :=
     else if String.eqb cmd "pybind_e2e" then run_pybind_e2e x
     else if String.eqb cmd "mlids" then run_mlids x
     else if String.eqb cmd "mltexts" then run_mltexts x
+    else if String.eqb cmd "mlfiles" then run_mlfiles x
     else if String.eqb cmd "echo" then print x
     else "badcmd"
   end.
